@@ -234,7 +234,8 @@ def dsigma_dm(mapping, sigma):
 
 
 # ------------------------------------------------------------- configuration
-FREQS = {'two': (0.5, 2.0), 'one': (1.0,), 'three': (0.1, 1.0, 7.0)}
+FREQS = {'two': (0.5, 2.0), 'one': (1.0,), 'three': (0.1, 1.0, 7.0),
+         'unsorted': (2.0, 0.25, 1.0)}
 DOM = {
     'case': ['isotropic', 'VTI'],
     'mapping': ['Conductivity', 'Resistivity', 'LgConductivity'],
